@@ -5,7 +5,9 @@
                 `three_separators_same_shape`, `semicolon_has_two_row_forms`,
                 `sequences_used_by_calls_and_arrays`, `accepted_shapes_derivable`,
                 `classify_flat_slots`, `classify_rows`
-  B. LITERALS   `number_literal_parse`, `number_literal`, `digitsVal_positional`, `string_literal`
+  B. LITERALS   `number_literal_parse`, `number_literal`, `huge_power_literal_is_num`,
+                `huge_power_literal_exceeds`, `small_power_literal_bounded`,
+                `digitsVal_positional`, `string_literal`
   C. WHITESPACE `whitespace_leading_trailing`, `whitespace_at_token_boundary`,
                 `single_character_tokens_selfdelimiting`, `quoted_literal_selfdelimiting`,
                 `whitespace_between_selfdelimiting_tokens`
@@ -324,15 +326,42 @@ theorem separator_irrelevant (items : List Item) (k k' : TK)
 
 /-! ## B. literals -/
 
-/-- what `Parser.parse` answers for a formula that parses to a numeric literal -/
+/-- what `Parser.parse` answers for a formula that parses to a numeric literal below the
+    guard of the literal-power production (every literal that is not a power of at least
+    2^1024, see `numLitTooBig`) -/
 theorem parseTop_of_num (env : Env) {s : List Char} {l : NumLit} (hs : s ≠ [])
-    (h : parseFormula s = .ok (.num l)) :
+    (h : parseFormula s = .ok (.num l)) (hsmall : numLitTooBig l = false) :
     parseTop env s = ({ result := some (evalNumLit l), error := none }, []) := by
   have he : s.isEmpty = false := by cases s with | nil => exact absurd rfl hs | cons _ _ => rfl
   unfold parseTop
   rw [he, h]
-  simp only [Bool.false_eq_true, ite_false, evalExpr]
+  simp only [Bool.false_eq_true, ite_false, evalExpr, hsmall]
   cases l <;> rfl
+
+/-- what `Parser.parse` answers for a formula that parses to a numeric literal at or above the
+    guard of the literal-power production: `#NUM!`, no result, no callback -/
+theorem parseTop_of_num_too_big (env : Env) {s : List Char} {l : NumLit} (hs : s ≠ [])
+    (h : parseFormula s = .ok (.num l)) (hbig : numLitTooBig l = true) :
+    parseTop env s = ({ result := none, error := some .num }, []) := by
+  have he : s.isEmpty = false := by cases s with | nil => exact absurd rfl hs | cons _ _ => rfl
+  unfold parseTop
+  rw [he, h]
+  simp only [Bool.false_eq_true, ite_false, evalExpr, hbig, ite_true]
+  rfl
+
+example : parseFormula "2^10".toList = .ok (.num (.pow ['2'] ['1', '0'])) ∧
+    numLitTooBig (.pow ['2'] ['1', '0']) = false := ⟨by rfl, by decide⟩
+example : parseFormula "2^1024".toList = .ok (.num (.pow ['2'] ['1', '0', '2', '4'])) ∧
+    numLitTooBig (.pow ['2'] ['1', '0', '2', '4']) = true := ⟨by rfl, by decide⟩
+
+/-- the guard `base > 1 and (base.bit_length() - 1) * exponent >= 1024` of the literal-power
+    production, on the digit strings of `a^b` (`Nat.log2 n = n.bit_length() - 1` for `n ≥ 1`) -/
+def PowGuard (a b : List Char) : Prop :=
+  digitsVal a > 1 ∧ Nat.log2 (digitsVal a) * digitsVal b ≥ 1024
+
+/-- the model's guard `numLitTooBig` on a literal power is exactly `PowGuard` -/
+theorem numLitTooBig_pow_iff (a b : List Char) : numLitTooBig (.pow a b) = true ↔ PowGuard a b := by
+  simp [numLitTooBig, PowGuard]
 
 /-- **Numeric literals parse to what they spell.**  For non-empty digit strings `a`, `b`, the
     formula texts `a`, `a.b`, `.b`, `a%`, `a^b` are tokenized and parsed to the literal forms
@@ -353,7 +382,10 @@ theorem number_literal_parse (a b : List Char) (hna : a ≠ []) (ha : ∀ c ∈ 
 
 /-- **A numeric literal evaluates to exactly the number it spells** (`digitsVal` = the
     positional decimal value, see `digitsVal_positional`): `a` is the integer `a`; `a.b` the
-    rational `a + b / 10^|b|`; `.b` is `b / 10^|b|`; `a%` is `a / 100`; `a^b` the integer power.
+    rational `a + b / 10^|b|`; `.b` is `b / 10^|b|`; `a%` is `a / 100`; `a^b` the integer power
+    — unless the guard of the production holds (`PowGuard`: base above 1 and
+    `(bit_length(base) - 1) * exponent ≥ 1024`, so that the power is at least 2^1024, see
+    `huge_power_literal_exceeds`), in which case `Parser.parse` reports `#NUM!` with no result.
     (Floats are exact rationals in the model; Python rounds them to the nearest double —
     trusted base.)  Stated for the whole of `Parser.parse`: the record has this result, no
     error, and no callback is called. -/
@@ -367,11 +399,104 @@ theorem number_literal (env : Env) (a b : List Char) (hna : a ≠ []) (ha : ∀ 
       ({ result := some (.num (.flt ((digitsVal b : Rat) / ((10 ^ b.length : Nat) : Rat)))), error := none }, []) ∧
     parseTop env (a ++ ['%']) =
       ({ result := some (.num (.flt ((digitsVal a : Rat) / 100))), error := none }, []) ∧
-    parseTop env (a ++ '^' :: b) =
-      ({ result := some (.num (.int ((digitsVal a : Int) ^ digitsVal b))), error := none }, []) := by
+    (¬ (digitsVal a > 1 ∧ Nat.log2 (digitsVal a) * digitsVal b ≥ 1024) →
+      parseTop env (a ++ '^' :: b) =
+        ({ result := some (.num (.int ((digitsVal a : Int) ^ digitsVal b))), error := none }, [])) ∧
+    ((digitsVal a > 1 ∧ Nat.log2 (digitsVal a) * digitsVal b ≥ 1024) →
+      parseTop env (a ++ '^' :: b) = ({ result := none, error := some .num }, [])) := by
   obtain ⟨h1, h2, h3, h4, h5⟩ := number_literal_parse a b hna ha hnb hb
-  exact ⟨parseTop_of_num env hna h1, parseTop_of_num env (by simp) h2, parseTop_of_num env (by simp) h3,
-    parseTop_of_num env (by simp) h4, parseTop_of_num env (by simp) h5⟩
+  refine ⟨parseTop_of_num env hna h1 rfl, parseTop_of_num env (by simp) h2 rfl,
+    parseTop_of_num env (by simp) h3 rfl, parseTop_of_num env (by simp) h4 rfl, ?_, ?_⟩
+  · intro hg
+    refine parseTop_of_num env (by simp) h5 ?_
+    cases hbig : numLitTooBig (.pow a b) with
+    | false => rfl
+    | true => exact absurd ((numLitTooBig_pow_iff a b).mp hbig) hg
+  · intro hg
+    exact parseTop_of_num_too_big env (by simp) h5 ((numLitTooBig_pow_iff a b).mpr hg)
+
+/-- **A literal power at or above the guard is `#NUM!`, whatever its size.**  For digit strings
+    `a`, `b` with `a > 1` and `(bit_length(a) - 1) * b ≥ 1024`, `Parser.parse("a^b")` is the
+    record `{result: None, error: '#NUM!'}` and calls nothing back: the answer is read off the
+    two operands, the power is never computed (`9^99999999` used to be computed exactly, in
+    unbounded time and memory). -/
+theorem huge_power_literal_is_num (env : Env) (a b : List Char) (hna : a ≠ [])
+    (ha : ∀ c ∈ a, isDigit c = true) (hnb : b ≠ []) (hb : ∀ c ∈ b, isDigit c = true)
+    (hbase : digitsVal a > 1) (hexp : Nat.log2 (digitsVal a) * digitsVal b ≥ 1024) :
+    parseTop env (a ++ '^' :: b) = ({ result := none, error := some .num }, []) :=
+  (number_literal env a b hna ha hnb hb).2.2.2.2.2 ⟨hbase, hexp⟩
+
+/-- **`#NUM!` is only reported for powers of at least 2^1024** (beyond the largest double,
+    which is below 2^1024): when the guard holds, the exact power `a^b` is at least `2^1024`. -/
+theorem huge_power_literal_exceeds (a b : List Char)
+    (hbase : digitsVal a > 1) (hexp : Nat.log2 (digitsVal a) * digitsVal b ≥ 1024) :
+    2 ^ 1024 ≤ digitsVal a ^ digitsVal b := by
+  have h1 : 2 ^ Nat.log2 (digitsVal a) ≤ digitsVal a := Nat.log2_self_le (by omega)
+  calc 2 ^ 1024 ≤ 2 ^ (Nat.log2 (digitsVal a) * digitsVal b) := Nat.pow_le_pow_right (by decide) hexp
+    _ = (2 ^ Nat.log2 (digitsVal a)) ^ digitsVal b := Nat.pow_mul _ _ _
+    _ ≤ digitsVal a ^ digitsVal b := Nat.pow_le_pow_left h1 _
+
+/-- a power is bounded by its bit-length estimate: `n^e ≤ 2^((log2 n + 1) * e)` -/
+theorem pow_le_two_pow_bits (n e : Nat) : n ^ e ≤ 2 ^ ((Nat.log2 n + 1) * e) := by
+  have h1 : n ≤ 2 ^ (Nat.log2 n + 1) := Nat.le_of_lt Nat.lt_log2_self
+  calc n ^ e ≤ (2 ^ (Nat.log2 n + 1)) ^ e := Nat.pow_le_pow_left h1 _
+    _ = 2 ^ ((Nat.log2 n + 1) * e) := (Nat.pow_mul _ _ _).symm
+
+/-- **Below the guard the computed power is small** (the point of the repair: the time and
+    memory of evaluating a literal are bounded): whenever the guard of the production does not
+    hold, the integer `a^b` that `Parser.parse` computes is at most `2^2046`, hence below
+    `2^2047` — at most 2047 bits. -/
+theorem small_power_literal_bounded (a b : List Char)
+    (hg : ¬ (digitsVal a > 1 ∧ Nat.log2 (digitsVal a) * digitsVal b ≥ 1024)) :
+    digitsVal a ^ digitsVal b ≤ 2 ^ 2046 ∧ digitsVal a ^ digitsVal b < 2 ^ 2047 := by
+  have key : digitsVal a ^ digitsVal b ≤ 2 ^ 2046 := by
+    generalize digitsVal a = n at hg ⊢
+    generalize digitsVal b = e at hg ⊢
+    by_cases hn : n > 1
+    · have hle : Nat.log2 n * e ≤ 1023 := by omega
+      have hL : 1 ≤ Nat.log2 n := by
+        have := (Nat.le_log2 (n := n) (k := 1) (by omega)).mpr (by omega)
+        exact this
+      have he : e ≤ Nat.log2 n * e := Nat.le_mul_of_pos_left e hL
+      have hb : (Nat.log2 n + 1) * e ≤ 2046 := by rw [Nat.add_mul, Nat.one_mul]; omega
+      calc n ^ e ≤ 2 ^ ((Nat.log2 n + 1) * e) := pow_le_two_pow_bits n e
+        _ ≤ 2 ^ 2046 := Nat.pow_le_pow_right (Nat.zero_lt_two) hb
+    · have h1 : n ^ e ≤ 1 ^ e := Nat.pow_le_pow_left (by omega) e
+      rw [Nat.one_pow] at h1
+      exact Nat.le_trans h1 (Nat.one_le_two_pow (n := 2046))
+  have hlt : ∀ j k : Nat, j < k → 2 ^ j < 2 ^ k := fun j k h => Nat.pow_lt_pow_right (Nat.lt_succ_self 1) h
+  exact ⟨key, Nat.lt_of_le_of_lt key (hlt 2046 2047 (Nat.lt_succ_self 2046))⟩
+
+-- the guard at its boundary: `2^1023`, `3^646`, `10^308` are computed, `2^1024`, `3^1024`,
+-- `10^342`, `9^99999999` are `#NUM!` (note `3^647 > 2^1024` is still computed: the guard uses
+-- the bit length of the base, so it is exact for powers of two only)
+-- the hypotheses of `huge_power_literal_is_num` / `huge_power_literal_exceeds` and of
+-- `small_power_literal_bounded` are satisfiable (`9^99999999`; `3^1023`, about 2^1621)
+example : digitsVal "9".toList > 1 ∧ Nat.log2 (digitsVal "9".toList) * digitsVal "99999999".toList ≥ 1024 := by decide
+example : ¬ (digitsVal "3".toList > 1 ∧ Nat.log2 (digitsVal "3".toList) * digitsVal "1023".toList ≥ 1024) := by decide
+example : numLitTooBig (.pow "2".toList "1023".toList) = false := by decide
+example : numLitTooBig (.pow "2".toList "1024".toList) = true := by decide
+example : numLitTooBig (.pow "3".toList "1023".toList) = false := by decide
+example : numLitTooBig (.pow "3".toList "1024".toList) = true := by decide
+example : numLitTooBig (.pow "10".toList "341".toList) = false := by decide
+example : numLitTooBig (.pow "10".toList "342".toList) = true := by decide
+example : numLitTooBig (.pow "9".toList "99999999".toList) = true := by decide
+example : numLitTooBig (.pow "1".toList "99999999".toList) = false := by decide
+example : numLitTooBig (.pow "0".toList "99999999".toList) = false := by decide
+example (env : Env) : parseTop env "9^99999999".toList = ({ result := none, error := some .num }, []) :=
+  huge_power_literal_is_num env "9".toList "99999999".toList (by decide) (by decide) (by decide) (by decide)
+    (by decide) (by decide)
+example (env : Env) : parseTop env "2^1024".toList = ({ result := none, error := some .num }, []) :=
+  huge_power_literal_is_num env "2".toList "1024".toList (by decide) (by decide) (by decide) (by decide)
+    (by decide) (by decide)
+example (env : Env) : parseTop env "2^1023".toList =
+    ({ result := some (.num (.int ((2 : Int) ^ 1023))), error := none }, []) :=
+  (number_literal env "2".toList "1023".toList (by decide) (by decide) (by decide) (by decide)).2.2.2.2.1
+    (by decide)
+example (env : Env) : parseTop env "10^308".toList =
+    ({ result := some (.num (.int ((10 : Int) ^ 308))), error := none }, []) :=
+  (number_literal env "10".toList "308".toList (by decide) (by decide) (by decide) (by decide)).2.2.2.2.1
+    (by decide)
 
 /-- `digitsVal` is the usual positional value of a digit string: empty is 0, appending a digit
     `d` gives `10 * value + digit d`, concatenation shifts by a power of ten, and the decimal
